@@ -1,1 +1,84 @@
 //! shared helpers for the chk-tools checks
+use mc_core::Ctx;
+use serde::Serialize;
+use std::collections::BTreeMap;
+use std::sync::Mutex;
+
+/// Collects diverging cases grouped by a `class` string and keeps, per class,
+/// the smallest one (by `(size, case JSON)`), so that the set of reported
+/// violations is small and deterministic even when a defect makes thousands
+/// of enumerated cases fail and the exploration order is parallel.
+pub struct Findings {
+    map: Mutex<BTreeMap<String, Entry>>,
+}
+
+struct Entry {
+    size: usize,
+    json: String,
+    what: String,
+    count: u64,
+}
+
+impl Default for Findings {
+    fn default() -> Self {
+        Findings { map: Mutex::new(BTreeMap::new()) }
+    }
+}
+
+impl Findings {
+    pub fn new() -> Self {
+        Self::default()
+    }
+    pub fn classes(&self) -> usize {
+        self.map.lock().unwrap().len()
+    }
+    /// Too many classes: something is badly broken, stop exploring.
+    pub fn overflow(&self) -> bool {
+        self.classes() > 40
+    }
+    pub fn report<C: Serialize>(&self, class: &str, size: usize, what: impl Into<String>, case: &C) {
+        let json = serde_json::to_string(case).unwrap();
+        let mut m = self.map.lock().unwrap();
+        match m.get_mut(class) {
+            Some(e) => {
+                e.count += 1;
+                if (size, &json) < (e.size, &e.json) {
+                    e.size = size;
+                    e.json = json;
+                    e.what = what.into();
+                }
+            }
+            None => {
+                m.insert(class.to_string(), Entry { size, json, what: what.into(), count: 1 });
+            }
+        }
+    }
+    /// Report one violation per class (key = JSON of the smallest case).
+    pub fn flush(self, ctx: &Ctx) {
+        let m = self.map.into_inner().unwrap();
+        let mut total = 0;
+        for (class, e) in m {
+            total += e.count;
+            ctx.count(&format!("diverging_cases[{class}]"), e.count);
+            let case: serde_json::Value = serde_json::from_str(&e.json).unwrap();
+            ctx.violation(e.json.clone(), format!("[{class}; smallest of {} diverging cases] {}", e.count, e.what), case);
+        }
+        ctx.count("diverging_cases_total", total);
+    }
+}
+
+/// An error of a check: `class` groups failures of the same kind.
+#[derive(Debug, Clone)]
+pub struct Fail {
+    pub class: String,
+    pub what: String,
+}
+
+impl Fail {
+    pub fn new(class: impl Into<String>, what: impl Into<String>) -> Fail {
+        Fail { class: class.into(), what: what.into() }
+    }
+    pub fn text(&self) -> String {
+        format!("[{}] {}", self.class, self.what)
+    }
+}
